@@ -46,18 +46,17 @@ def skip_inv(path):
 def after_entry(sc, res):
     import spec_checks
     spec_checks.run(sc, res)
+    if res.get("vec_ref") is not None:
+        spec_checks.vec_conformance(sc, res)
 
 
 # Documented preconditions: the only `requires` an entry point may keep (DESIGN appendix D).
 # (function path suffix, macro) -> where it is documented
 DOCUMENTED_REQUIRES = {
-    ("IndexedCoproduct::<K, F>::flatmap_sources", "assert_eq!"): "comment + assert: |self.values| = other.len()",
-    ("IndexedCoproduct::<K, finite_function::arrow::FiniteFunction<K>>::flatmap", "assert_eq!"):
-        "assert; doc types A→B*, B→C*: self.values.target = other.len()",
-    ("strict::hypergraph::object::Hypergraph::<K, O, A>::in_degree", "assert!"): "assertion message: node < |w|",
-    ("strict::hypergraph::object::Hypergraph::<K, O, A>::out_degree", "assert!"): "assertion message: node < |w|",
     ("strict::graph::dense_relative_indegree", "assert_eq!"): "comment: adjacency.len() = f.target()",
     ("strict::graph::sparse_relative_indegree", "assert_eq!"): "comment: a.len() = f.target()",
+    ("NaturalArray<array::vec::vec_array::VecKind>>::scatter_sub_assign", "-"):
+        "array contract: scatter_sub_assign must not underflow (natural numbers)",
 }
 
 
@@ -103,6 +102,20 @@ def entry_assumptions(fn_path, names, args, st, sc=None, fr0=None):
                           ("strict::hypergraph::arrow::successors", "adjacency")):
         if fn_path.endswith(suffix):
             adjacency(d[pname])
+    # documented preconditions of public operations (stated as assertions in the code): assumed at the entry point,
+    # wherever the assertion itself lives (in the body or in a helper it delegates to)
+    if fn_path.endswith("strict::hypergraph::object::Hypergraph::<K, O, A>::in_degree") or \
+            fn_path.endswith("strict::hypergraph::object::Hypergraph::<K, O, A>::out_degree"):
+        st.add_ge(inv.values_len(d["self"].f["w"]) - d["node"].p - 1)
+        out.append("in/out_degree(node): node < |w| (assertion message)")
+    if fn_path.endswith("IndexedCoproduct::<K, F>::flatmap_sources"):
+        vals = d["self"].f["values"]
+        n = t_len(vals.f["table"].t) if vals.ty == inv.FF else t_len(vals.f["0"].t)
+        st.add_eq(n - t_len(d["other"].f["sources"].f["table"].t))
+        out.append("flatmap_sources(other): |self.values| = other.len() (comment + assertion)")
+    if fn_path.endswith("IndexedCoproduct::<K, finite_function::arrow::FiniteFunction<K>>::flatmap"):
+        st.add_eq(d["self"].f["values"].f["target"].p - t_len(d["other"].f["sources"].f["table"].t))
+        out.append("flatmap(other): self.values.target = other.len() (doc types A→B*, B→C*; assertion)")
     if fn_path.endswith("NaturalArray::segmented_sum"):
         st.add_eq(t_sum(d["self"].t) - t_len(d["x"].t))
         out.append("# Panics: when self.sum() != x.len()")
